@@ -4,7 +4,10 @@ spec/Storage/Storage.tla (one module; the policy, whether promise_extra_storage<
 its initial size parameter are chosen in the initial state) is checked exhaustively for every policy (all
 create/complete sequences of three frame-size classes, overlapping lifetimes where the policy permits them; storage
 objects constructed / moved / move-assigned / destroyed and the external buffer resized / shrunk / emptied / swapped
-by its owner between frames) and for two threads on one
+by its owner between frames; the memory of the caller -- the buffer's vector, placement_alloc's buffer -- at addresses
+that are and are not multiples of 16, every frame's address range inside the area its policy owns; under the
+attached-object layer completions in which the destructor of the attached object is a step of its own during which
+other frames are created and completed on the same storage) and for two threads on one
 reusable_storage_mtsafe (scheduling points: the atomic operations on _busy; in a second configuration
 also every operator new/delete call of the storage).  Every edge of every state graph is replayed on
 the real policies by harness/storage_replay.cpp (quick: smaller bounds, no sanitizers; thorough: deeper
@@ -21,7 +24,7 @@ from framework import graph_replay, replay_tlc_trace
 SPEC = "Storage"
 PEND = {"idle": "idle", "new_heap": "new", "new_shared": "new", "del_old": "delete", "del_after": "delete",
         "delete": "delete", "store": "store"}
-FRKEYS = ("c", "o", "live", "where", "slot", "blk", "tr", "eo", "asz", "dz", "ct", "dt")
+FRKEYS = ("c", "o", "live", "where", "slot", "blk", "at", "tr", "eo", "asz", "dz", "ct", "dt")
 OBJKEYS = ("st", "ptr", "cap", "inv", "fac")
 WORKERS = 2
 
@@ -29,7 +32,17 @@ NSLOTS = 6
 ALL = '{"default", "reusable", "mtsafe", "stack", "placement", "buffer"}'
 
 
+_memo = {}     # id(state dict of the graph being replayed) -> projection (cleared per graph: run_cfg)
+
+
 def proj(st):
+    r = _memo.get(id(st))
+    if r is None:
+        r = _memo[id(st)] = _proj(st)
+    return r
+
+
+def _proj(st):
     """what harness/storage_replay.cpp reports after every step (the ghosts `sh` and `dbl` stay in the model;
     the replayer's own checks -- overlap on raw addresses, canaries, block sizes, double free -- must
     report nothing: bad = [])"""
@@ -64,7 +77,7 @@ def header(mode, grain, obs="full"):
         # other creation of the scenario goes through a copy of the storage object
         return {"policy": st0["env"]["pol"], "ex": st0["env"]["ex"], "mode": mode, "grain": grain,
                 "kill": "destroy" if k % 3 == 2 else "finish", "copy": k % 5 in (1, 3),
-                "init": st0["env"]["init"], "nslots": NSLOTS, "obs": obs,
+                "init": st0["env"]["init"], "boff": st0["env"]["boff"], "nslots": NSLOTS, "obs": obs,
                 "fam": k % 2 if mode == "mt" else (0, 3)[k % 2] if st0["env"]["ex"] else k % 4}
     return hdr
 
@@ -73,6 +86,7 @@ def run_cfg(ctx, rp, tag, cfg, consts, mode, must, max_paths=None, obs="full", e
     grain = consts["Grain"].strip('"')
     consts = dict(consts)
     consts["NSlots"] = NSLOTS
+    _memo.clear()
     return graph_replay(ctx, SPEC, SPEC, cfg, tag, rp, proj_alloc if obs == "alloc" else proj,
                         header_fn=header(mode, grain, obs), constants=consts,
                         must_take=must, max_paths=max_paths, extra_random=extra_random, tlc_kw={"workers": WORKERS})
@@ -129,7 +143,8 @@ def alloc_replay(ctx):
     fixed = probe_grow(rp) != "delete_new"
     c = {"Policies": '{"stack", "reusable", "mtsafe"}', "ExPolicies": "{}", "MaxCreate": 4, "MaxOverlap": 2,
          "Grain": '"call"', "Fixed": "TRUE" if fixed else "FALSE", "StackInits": "{0}", "BufferInits": "{0}",
-         "PlaceInits": "{300}", "MaxMoves": 0, "MaxOwner": 0, "MaxPrep": 2, "MaxThrows": 0, "ThrowFixed": "TRUE"}
+         "PlaceInits": "{300}", "MaxMoves": 0, "MaxOwner": 0, "MaxPrep": 2, "MaxThrows": 0, "ThrowFixed": "TRUE",
+         "AreaOffs": "{0}", "MaxDtor": 0}
     # the shape family follows the scenario number: the random walks on top of the edge cover put every short
     # history under several families
     run_cfg(ctx, rp, "stor_alloc", "Storage_seq.cfg", c, "seq", ["Create", "Complete", "Teardown"], obs="alloc",
@@ -166,18 +181,38 @@ def run(ctx):
     #    each policy also as base of promise_extra_storage<T, policy>; reusable_storage objects constructed, moved,
     #    move-assigned and destroyed between frames; the owner of reusable_buffer_storage's vector resizing, shrinking,
     #    clearing, moving out and swapping it between frames
+    #    the caller's memory (vector of reusable_buffer_storage, buffer of placement_alloc) at addresses 0 and 8 mod 16;
+    #    under the layer one completion per history (thorough: two) whose ~T is a step during which frames are created
+    #    and completed
     inits = {"StackInits": "{0, 200}" if ctx.quick else "{0, 200, 201}", "BufferInits": "{0, 200}",
-             "PlaceInits": "{300}" if ctx.quick else "{300, 200}"}
+             "PlaceInits": "{300}" if ctx.quick else "{300, 200}", "AreaOffs": "{0, 8}", "AlignUp": "FALSE",
+             "DtorFirst": "TRUE"}
     c = {"Policies": ALL, "ExPolicies": ALL, "MaxCreate": 4 if ctx.quick else 5, "MaxCreateEx": 3 if ctx.quick else 4,
          "MaxOverlap": 3, "Grain": '"call"', "Fixed": FX, "MaxMoves": 2 if ctx.quick else 3, "MaxOwner": 2 if ctx.quick else 3,
-         "MaxPrep": 2, "MaxThrows": 1 if throw_ok else 0, "ThrowFixed": "TRUE"}
+         "MaxPrep": 2, "MaxThrows": 1 if throw_ok else 0, "ThrowFixed": "TRUE", "MaxDtor": 1 if ctx.quick else 2,
+         "MaxDtorMoves": 0 if ctx.quick else 1}
     c.update(inits)
     run_cfg(ctx, rp, "seq", "Storage_seq.cfg", c, "seq",
             ["Create", "CreateB", "Complete", "Teardown", "NewObj", "MoveCtor", "MoveAssign", "Drop",
-             "OwnerResize", "OwnerShrink", "OwnerClear", "OwnerMoveOut", "OwnerSwap", "Prepare", "CreateP"]
+             "OwnerResize", "OwnerShrink", "OwnerClear", "OwnerMoveOut", "OwnerSwap", "Prepare", "CreateP",
+             "DtorBegin", "DtorEnd"]
             + (["CreateThrow"] if throw_ok else []))
     sdir = os.path.join(vlib.VERIF, "spec", SPEC)
     seqbase = open(os.path.join(sdir, "Storage_seq.cfg")).read()
+    # not vacuous: the model of "block handed back to the base policy, THEN ~T" must be rejected by Exclusive (a frame
+    # created while ~T runs gets the block the dying object lives in), the model of "address rounded up to 16 without
+    # reserving room" by LargeEnough
+    for name, consts, inv in (("dtor_after", {"DtorFirst": "FALSE", "Policies": '{"mtsafe"}', "ExPolicies": '{"mtsafe"}'}, "Exclusive"),
+                              ("align_up", {"AlignUp": "TRUE", "Policies": '{"buffer", "placement"}', "ExPolicies": "{}"}, "LargeEnough")):
+        pre = os.path.join(vlib.BUILD, "%s_%s_prefix.cfg" % (ctx.prop, name))
+        txt = re.sub(r"^INVARIANTS.*$", "INVARIANTS " + inv, seqbase, flags=re.M)
+        txt = re.sub(r"^PROPERTIES.*$", "", txt, flags=re.M)
+        consts.update({"Fixed": FX, "NSlots": NSLOTS, "MaxMoves": 0, "MaxOwner": 0, "MaxThrows": 0})
+        vlib.write_cfg(pre, txt, consts)
+        r = vlib.run_tlc(sdir, SPEC, pre, "%s_%s_prefix" % (ctx.prop, name), workers=1, coverage=False)
+        if not r.violation:
+            raise vlib.MachineryError("Storage.%s accepts the model %s: vacuous" % (inv, consts))
+        ctx.extra[name + "_model_rejected_by"] = r.violation
     if throw_ok:
         # not vacuous: the model of "the block stays where it is" must be rejected
         pre = os.path.join(vlib.BUILD, "%s_throw_prefix.cfg" % ctx.prop)
@@ -194,13 +229,13 @@ def run(ctx):
             txt = re.sub(r"^INVARIANTS.*$", "INVARIANTS " + invariant, seqbase, flags=re.M)
             txt = re.sub(r"^PROPERTIES.*$", "", txt, flags=re.M)
             vlib.write_cfg(demo, txt, {"ThrowFixed": "FALSE", "Fixed": FX, "Policies": '{"%s"}' % pol,
-                                       "ExPolicies": '{"%s"}' % pol, "MaxMoves": 0, "NSlots": NSLOTS})
+                                       "ExPolicies": '{"%s"}' % pol, "MaxMoves": 0, "NSlots": NSLOTS, "MaxDtor": 0})
             res = ctx.tlc(SPEC, SPEC, demo, "throw_cex_" + pol, workers=1)
             if not res.violation:
                 raise vlib.MachineryError("block-kept model expected to violate %s" % invariant)
             hdr = {"policy": pol, "ex": True, "copy": False, "mode": "seq", "grain": "call", "kill": "finish",
-                   "init": 0, "nslots": NSLOTS, "fam": 0, "obs": "full"}
-            followed, out, text = replay_tlc_trace(ctx, res, rp, proj, hdr, "throw_" + pol)
+                   "init": 0, "boff": 0, "nslots": NSLOTS, "fam": 0, "obs": "full"}
+            followed, out, text = replay_tlc_trace(ctx, res, rp, _proj, hdr, "throw_" + pol)
             if not followed and re.search(r"^DIVERGE \S+ step=%d action=\S+ heap blocks still allocated after the storage "
                                           r"was destroyed" % (len(res.trace) - 2), out, re.M):
                 followed = True     # every step matched; the replayer's own end-of-scenario check found the block
@@ -221,7 +256,7 @@ def run(ctx):
     if not ctx.quick:
         # longer create/complete sequences of the plain policies (no layer, no moves, no owner actions)
         c = {"Policies": ALL, "ExPolicies": "{}", "MaxCreate": 6, "MaxCreateEx": 0, "MaxOverlap": 3, "Grain": '"call"',
-             "Fixed": FX, "MaxMoves": 0, "MaxOwner": 0, "MaxPrep": 0, "MaxThrows": 0, "ThrowFixed": "TRUE"}
+             "Fixed": FX, "MaxMoves": 0, "MaxOwner": 0, "MaxPrep": 0, "MaxThrows": 0, "ThrowFixed": "TRUE", "MaxDtor": 0}
         c.update(inits)
         run_cfg(ctx, rp, "seq_deep", "Storage_seq.cfg", c, "seq", ["Create", "Complete", "Teardown"])
 
@@ -260,8 +295,8 @@ def run(ctx):
         if not res.violation:
             raise vlib.MachineryError("release-first model expected to violate Exclusive at allocator grain")
         hdr = {"policy": "mtsafe", "ex": False, "copy": False, "mode": "mt", "grain": "alloc", "kill": "finish", "init": 0,
-               "nslots": NSLOTS, "fam": 0, "obs": "full"}
-        followed, out, text = replay_tlc_trace(ctx, res, rp, proj, hdr, "mt2alloc")
+               "boff": 0, "nslots": NSLOTS, "fam": 0, "obs": "full"}
+        followed, out, text = replay_tlc_trace(ctx, res, rp, _proj, hdr, "mt2alloc")
         if not followed:
             # In the last state the model has two live frames in one block; the replayer then reports, from
             # raw addresses, the overlap (and the destroyed canary) in `bad`, which the projection of a
@@ -314,6 +349,19 @@ def run(ctx):
                "before it, at most 2 in such a history; plain with_allocator coroutines only -- callback_await_coro is "
                "noexcept, a throwing allocation there terminates the process by design); other exceptions (operator new "
                "failing, vector::resize failing) are not injected")
+    ctx.assume("destructor of the attached object (code of the user inside promise_extra_storage::dealloc): one completion per "
+               "history (thorough: two, not nested) in which ~T creates and completes coroutines -- on the same storage where the "
+               "base policy permits a second live frame (default, mtsafe, stack), on a second storage object (reusable; thorough tier) -- "
+               "in every order the model allows, frames outliving the destructor included; plain with_allocator coroutines "
+               "(a callback_await_coro resumed inside a destructor is only queued by the thread's coro_queue); such histories "
+               "have no (thorough: at most one) storage-object operation before that completion and no owner action, prepared storage or "
+               "throwing factory; a creation on a reusable_storage_mtsafe by ANOTHER thread while ~T runs passes through the "
+               "same states of the storage as the creation by the destructor itself and is not replayed with two threads")
+    ctx.assume("memory of the caller: the vector of reusable_buffer_storage (an allocator of the harness gives it exactly the "
+               "bytes it asks for) and the buffer of placement_alloc begin at addresses 0 and 8 mod 16 (the frames of the "
+               "harness need no more than 8-byte alignment; other residues would be misaligned accesses); stack_storage gets "
+               "16-aligned blocks as alloca returns them; every frame's address is observed relative to the first byte of the "
+               "area its policy owns for it (heap block, vector elements, alloca block, placement buffer)")
     ctx.assume("the owner of reusable_buffer_storage's vector uses it only while no frame is alive (documented): resize to "
                "a frame-class size, shrink_to_fit, clear+shrink_to_fit, move out, swap with a fresh vector; std::vector "
                "reallocation (new block, then old released; exact size when growing by more than a factor 2) is libstdc++'s")
@@ -324,4 +372,6 @@ def run(ctx):
                "operator new/delete calls; memory orders and the unsynchronised plain read of _ptr in dealloc are "
                "C03 matters")
     ctx.assume("static_storage does not satisfy the Storage concept (non-static dealloc) and cannot be used with "
-               "with_allocator: not covered; reusable_buffer_storage is instantiated with std::vector<uint64_t>")
+               "with_allocator: not covered; reusable_buffer_storage is instantiated with a std::vector of 16-byte "
+               "items (frame sizes that are 8 mod 16 -- half of the shape families -- need the rounding up to whole items; "
+               "n items are compared as the size of the request that needs n)")
